@@ -380,6 +380,56 @@ theorem widen_exact (bits : Nat) (n : Bool) (m : Nat) (e : Int) (hd : decode f32
       omega
     rw [if_pos hlt]
 
+/-! ## the link to property C10: narrowing a non-negative finite double is C10's `narrow32` -/
+
+/-- `Spec.Dec2Bin.decode` and the model's `decode` read a non-negative finite binary64 pattern the same way -/
+theorem decode_f64_spec (bits : Nat) (h : bits < RsslVerif.Spec.Dec2Bin.binary64.infBits) :
+    decode f64 bits = .fin false (RsslVerif.Spec.Dec2Bin.decode RsslVerif.Spec.Dec2Bin.binary64 bits).1
+      (RsslVerif.Spec.Dec2Bin.decode RsslVerif.Spec.Dec2Bin.binary64 bits).2 := by
+  have hinf : RsslVerif.Spec.Dec2Bin.binary64.infBits = 2047 * 2 ^ 52 := by decide
+  rw [hinf] at h
+  have hsign : bits / f64.signBit % 2 = 0 := by
+    have : f64.signBit = 2 ^ 63 := by decide
+    rw [this]
+    have : bits / 2 ^ 63 = 0 := Nat.div_eq_of_lt (by omega)
+    omega
+  have hex : bits / 2 ^ 52 < 2047 := by
+    apply Nat.div_lt_of_lt_mul; omega
+  have hexm : bits / 2 ^ 52 % 2 ^ 11 = bits / 2 ^ 52 := Nat.mod_eq_of_lt (by omega)
+  unfold decode RsslVerif.Spec.Dec2Bin.decode
+  have hm : f64.mant = 52 := rfl
+  have hx : f64.exp = 11 := rfl
+  have hmax : f64.expMax = 2047 := by decide
+  have hemin : f64.emin = -1074 := by decide
+  have hp : RsslVerif.Spec.Dec2Bin.binary64.p - 1 = 52 := by decide
+  have hse : RsslVerif.Spec.Dec2Bin.binary64.emin = -1074 := by decide
+  simp only [hm, hx, hmax, hemin, hp, hse, hsign, hexm]
+  have hne : ¬ (bits / 2 ^ 52 = 2047) := by omega
+  by_cases h0 : bits / 2 ^ 52 = 0
+  · simp [h0]
+  · simp [hne, h0]
+    omega
+
+/-- **the model's `(float)d` is C10's `narrow32`** on every non-negative finite double (the pattern C10 proves to be
+the correctly rounded single of the exact double value) -/
+theorem convert_f64_f32_eq_narrow32 (bits : Nat) (h : bits < RsslVerif.Spec.Dec2Bin.binary64.infBits) :
+    convert f64 f32 bits = RsslVerif.Spec.Dec2Bin.narrow32 bits := by
+  have hd := decode_f64_spec bits h
+  rw [convert_fin f64 f32 (by decide) bits false _ _ hd, toSpec_f32]
+  unfold RsslVerif.Spec.Dec2Bin.narrow32
+  have hn : ¬ (RsslVerif.Spec.Dec2Bin.binary64.infBits ≤ bits) := Nat.not_le.mpr h
+  rw [if_neg hn]
+  simp only [Bool.false_eq_true, if_false, Nat.zero_add]
+  generalize (RsslVerif.Spec.Dec2Bin.decode RsslVerif.Spec.Dec2Bin.binary64 bits).1 = m
+  generalize (RsslVerif.Spec.Dec2Bin.decode RsslVerif.Spec.Dec2Bin.binary64 bits).2 = q
+  by_cases hq : 0 ≤ q
+  · rw [if_pos hq]
+    have : (-q).toNat = 0 := by omega
+    simp [num, den, this]
+  · rw [if_neg hq]
+    have : q.toNat = 0 := by omega
+    simp [num, den, this]
+
 /-! ## float → integer -/
 
 /-- saturation to `[lo, hi]` -/
